@@ -150,9 +150,9 @@ struct fwd_twice {
         f(a);
         std::forward<F>(f)(b);
     }
-    std::string steal(std::size_t i)
+    std::string steal(std::vector<std::string>& src, std::size_t i)
     {
-        auto& slot = a.at(i);
+        auto& slot = src.at(i);     // storage that belongs to the caller
         return std::string(std::move(slot));
     }
     std::string copy_then_move(std::size_t i)
